@@ -1100,6 +1100,10 @@ def masked_writes(ctx, report):
                 continue
             x = show(operand[0])
             split = any(o is not e and has_shift_of(o.val, x) for o in els)
+            if not split and isinstance(operand[0], Sym) and operand[0].op == 'rshift' and operand[0].args:
+                # ``(code >> 8) & 0xff`` next to ``code & 0xff``: the other spelling of the same split (``(code & 0xff00) >> 8``)
+                inner = show(operand[0].args[0])
+                split = any(o is not e and inner in show(o.val) for o in els)
             if split:
                 continue
             report.add('C11.R7', '%s@masked[%s]' % (f.construct, x[:50]),
